@@ -365,6 +365,64 @@ example : ∃ st, CtlBeat.run CtlBeat.init [.hbStart, .timer, .closeCas, .beatFa
     st.cl = .done ∧ st.hb = .exited ∧ st.connClosed = true := by
   refine ⟨_, rfl, ?_, ?_, ?_⟩ <;> decide
 
+/-! ## Event handling against the receive loop (`Model/EvDeb.lean`): recv hands every EVENT frame to
+    eventDebouncer.debounce, which needs the debouncer's mutex. All schedules, any number of events and handlers. -/
+
+/-- the receive loop is never blocked by event handling: in every reachable state recv's debounce() can take the mutex
+    at once, or the flusher holds it and needs exactly ONE step of its own to give it back - a step that is enabled
+    whatever the handlers of earlier batches are doing (however many are running, whether or not they ever return) -/
+theorem C06_ev_recv_never_blocked (as : List EvDeb.Act) (st : EvDeb.St) (h : EvDeb.run EvDeb.init as = some st) :
+    (EvDeb.step st .event).isSome = true ∨
+    ((EvDeb.step st .flush).isSome = true ∧ ∀ st', EvDeb.step st .flush = some st' → (EvDeb.step st' .event).isSome = true) := by
+  have inv := EvDeb.inv_run as _ st EvDeb.inv_init h
+  unfold EvDeb.Inv at inv
+  cases hf : st.fl with
+  | idle => left; simp [EvDeb.step, hf]
+  | inCallback => exact absurd hf inv
+  | locked =>
+    right
+    constructor
+    · simp only [EvDeb.step, hf, if_true]; split <;> simp
+    · intro st' hs
+      simp only [EvDeb.step, hf, if_true] at hs
+      split at hs <;> (injection hs with hs; subst hs; simp [EvDeb.step])
+
+/-- every event the receive loop has buffered is handed to a handler by the next flush, exactly once: the count of
+    events handed over plus the buffer is the number of events received -/
+theorem C06_ev_all_handed (as : List EvDeb.Act) (st : EvDeb.St) (h : EvDeb.run EvDeb.init as = some st) :
+    st.handed + st.buf = (as.filter (· == .event)).length := by
+  suffices H : ∀ (as : List EvDeb.Act) (s s' : EvDeb.St), EvDeb.run s as = some s' →
+      s'.handed + s'.buf = s.handed + s.buf + (as.filter (· == .event)).length by
+    simpa [EvDeb.init] using H as _ st h
+  intro as
+  induction as with
+  | nil => intro s s' hr; simp [EvDeb.run] at hr; subst hr; simp
+  | cons a as ih =>
+    intro s s' hr
+    simp only [EvDeb.run] at hr
+    split at hr
+    · rename_i s1 hs1
+      have := ih s1 s' hr
+      cases a <;> simp only [EvDeb.step] at hs1 <;> (repeat' split at hs1) <;>
+        first
+        | (simp at hs1; done)
+        | (injection hs1 with hs1; subst hs1; simp_all <;> omega)
+    · simp at hr
+
+/-- Counterexample for the flusher of seeded change C06-10 (`EvDeb.stepSync`: the handler runs on the flusher goroutine
+    under the mutex): one event, the timer fires, the handler is running - a second EVENT frame blocks the receive loop,
+    and the only step left is the handler returning (which, being a query on this very connection, needs the receive loop) -/
+theorem C06_ev_cex_handler_under_lock :
+    ∃ st, EvDeb.runSync EvDeb.init [.event, .timerFire, .flush] = some st ∧
+      EvDeb.stepSync st .event = none ∧ EvDeb.stepSync st .flush = none ∧ EvDeb.stepSync st .timerFire = none := by
+  refine ⟨_, rfl, ?_, ?_, ?_⟩ <;> decide
+
+/-- non-vacuity: on the machine of the code that exists the second event is buffered while the first handler runs, and
+    is handed to a second handler by the next flush -/
+example : ∃ st, EvDeb.run EvDeb.init [.event, .timerFire, .flush, .event, .timerFire, .flush] = some st ∧
+    st.running = 2 ∧ st.handed = 2 ∧ st.buf = 0 := by
+  refine ⟨_, rfl, ?_, ?_, ?_⟩ <;> decide
+
 /-! ## Closing calls back into the owner: the lock discipline of hostConnPool (`Model/PoolLock.lean`)
 
     FULL PROPERTY ("closing a connection or a session returns"), proved below without exclusion since the repair of
